@@ -2,11 +2,11 @@ SPECIFICATION MCSpec
 CONSTANTS
   CollPool <- OneColl
   NIds = 2
-  XVals <- XValsTiny
+  XVals <- XValsNil
   YVals <- YValsTiny
-  LitPool <- LitTiny
+  LitPool <- LitNil
   IdxFields <- IdxBoth
-  QueryLevel = 1
+  QueryLevel = 2
   Emit = TRUE
   MaxHist = 6
 VIEW MCView
